@@ -27,7 +27,6 @@ import (
 	mockstatesinformer "github.com/koordinator-sh/koordinator/pkg/koordlet/statesinformer/mockstatesinformer"
 	koordletutil "github.com/koordinator-sh/koordinator/pkg/koordlet/util"
 	"github.com/koordinator-sh/koordinator/pkg/koordlet/util/system"
-	"github.com/koordinator-sh/koordinator/pkg/util/cpuset"
 )
 
 // C10 "round" harness: whole rounds of the REAL suppressBECPU() — NodeSLO feature switch, metric collection, budget,
@@ -187,7 +186,7 @@ func c10CaseRound(t *testing.T, h *vHarness, r *vRand, cg *c10Cgroup, beDir stri
 
 	readLevel := func(dir, tag string) ([]int, string, bool) {
 		raw := cg.read(t, dir, system.CPUSet)
-		set, err := cpuset.Parse(strings.Trim(raw, "\n"))
+		set, err := c10ParseFile(raw)
 		if err != nil {
 			h.Obs("%s unparsable", tag)
 			h.Fail("C10:cpuset-unparsable", "cpuset.cpus content %q in %s", raw, dir)
